@@ -38,36 +38,18 @@ def str_to_num(s: str, fmt: str) -> Any[float, int]:
     if not isinstance(s, str):
         s = str(s)
 
-    sexagesimal_match = re.match(r"^%(\d*)\.(\d+)m$", fmt)
-    if sexagesimal_match:
-        fraction_length = int(sexagesimal_match.groups()[1])
-        assert fraction_length in (
-            3,
-            5,
-            6,
-            8,
-            9,
-        ), f"Invalid sexagesimal number format: {fmt}"
-
-        regexps = {
-            3: r"^(\-?)(\d+)[:; ](\d{2})$",
-            5: r"^(\-?)(\d+)[:; ](\d{2}\.\d+)$",
-            6: r"^(\-?)(\d+)[:; ](\d{2})[:; ](\d{2})$",
-            8: r"^(\-?)(\d+)[:; ](\d{2})[:; ](\d{2}.\d+)$",
-            9: r"^(\-?)(\d+)[:; ](\d{2})[:; ](\d{2}.\d+)$",
-        }
-
-        num_match = re.match(regexps[fraction_length], s)
-        if not num_match:
-            raise ValueError("Cannot convert string to number")
+    num_match = re.match(r"^([\-+]?)(\d+)[:; ](\d+\.?\d*)$", s) or re.match(
+        r"^([\-+]?)(\d+)[:; ](\d+)[:; ](\d+\.?\d*)$", s
+    )
+    if num_match:
         num_match_groups = num_match.groups()
         sign = num_match_groups[0]
         wholes = num_match_groups[1]
         minutes = num_match_groups[2]
-        seconds = num_match_groups[3] if fraction_length in (6, 8, 9) else 0
+        seconds = num_match_groups[3] if len(num_match_groups) > 3 else 0
 
         value = float(wholes) + (float(minutes) / 60) + (float(seconds) / 3600)
-        return -value if sign else value
+        return -value if sign == "-" else value
 
     if "." in s:
         return float(s)
